@@ -395,13 +395,13 @@ def do_datetime(rec, conv):
         vals = [datetime.datetime(2021, 1, 15, 12, 0, 0, 0, tzinfo=stz), datetime.datetime(2021, 7, 15, 12, 0, 0, 0, tzinfo=stz)]
         for v in (vals if order == 0 else vals[::-1]):
             write_read(rec, conv, v, lambda t: R.written_datetime_ok(t))
-    for (y, mo, d, h, mi, s) in [(1900, 1, 1, 0, 0, 0), (1999, 12, 31, 23, 59, 59), (2000, 2, 29, 12, 0, 0), (2024, 2, 29, 23, 59, 59), (2200, 12, 31, 0, 0, 1)]:
+    for (y, mo, d, h, mi, s) in [(100, 6, 15, 12, 0, 0), (999, 12, 31, 23, 59, 59), (1000, 1, 1, 0, 0, 0), (1900, 1, 1, 0, 0, 0), (1999, 12, 31, 23, 59, 59), (2000, 2, 29, 12, 0, 0), (2024, 2, 29, 23, 59, 59), (2200, 12, 31, 0, 0, 1)]:
         for ms in (0, 1, 500, 999):
             for z in zones:
                 v = datetime.datetime(y, mo, d, h, mi, s, ms * 1000, tzinfo=datetime.timezone(datetime.timedelta(minutes=z)))
                 write_read(rec, conv, v, lambda t: R.written_datetime_ok(t))
     for txt in ("20240229", "20240229235959", "20240229235959.999", "20240229235959.999[-5:EST]", "20240229235959[+5.30]", "19000101000000.000[-0.30]", "22001231235959.001[+14]", "20240229235959.999[0]",
-                "20240229235959.999[-3.30:NST]", "20240229235959[-9.30]"):
+                "20240229235959.999[-3.30:NST]", "20240229235959[-9.30]", "09991231235959.999[-5:EST]", "01000615"):
         ms = R.read_datetime(txt)
         read_canon(rec, conv, txt, ms, eq=lambda a, e: isinstance(a, datetime.datetime) and a.utcoffset() == datetime.timedelta(0) and R.pydt_to_us(a) == e * 1000)
     for bad in ("abc", "1.2.3", "--1", "YN", "2024022", "20241301", "20240230", "20240229240000", "2024-02-29"):
